@@ -9,7 +9,7 @@ import zipfile
 from dsim.container import write_container
 from dsim.pkg import Package
 
-KINDS = ["member_order", "compression", "form", "rechunk", "list_perm", "offsets", "empty_row_headers"]
+KINDS = ["member_order", "compression", "form", "rechunk", "list_perm", "offsets", "empty_row_headers", "record_order"]
 
 
 def gen_relayout(rng) -> dict:
@@ -82,6 +82,44 @@ def apply_relayout(path: str, spec: dict) -> dict:
                 touched_members.add(o.member)
         done["rows_to_byte_offsets"] = n_to_narrow
         done["rows_to_4byte_offsets"] = n_to_wide
+
+    if "record_order" in kinds:
+        # "every stored row is reported at the row index its own storage record declares": a tile reference declares its
+        # tileid and a row record its tile_row_index, so where either sits in its repeated field is layout
+        n_tiles = n_rows = 0
+        for t in pkg.table_models():
+            refs = t.msg.base_data_store.tiles.tiles
+            if len(refs) > 1:
+                raws = [x.SerializeToString() for x in refs]
+                perm = list(range(len(raws)))
+                rng.shuffle(perm)
+                if perm == sorted(perm):
+                    perm.reverse()
+                cls = type(refs[0])
+                del refs[:]
+                for i in perm:
+                    x = cls()
+                    x.ParseFromString(raws[i])
+                    refs.append(x)
+                t.commit()
+                touched_members.add(t.member)
+                n_tiles += 1
+        for o in pkg.by_type("TST.Tile"):
+            infos = o.msg.rowInfos
+            if len(infos) > 1 and rng.random() < 0.7:
+                raws = [x.SerializeToString() for x in infos]
+                rng.shuffle(raws)
+                cls = type(infos[0])
+                del infos[:]
+                for raw in raws:
+                    x = cls()
+                    x.ParseFromString(raw)
+                    infos.append(x)
+                o.commit()
+                touched_members.add(o.member)
+                n_rows += 1
+        done["tile_lists_permuted"] = n_tiles
+        done["tiles_with_row_records_permuted"] = n_rows
 
     if "empty_row_headers" in kinds or "header_order" in kinds:
         added = reordered = 0
